@@ -6,7 +6,7 @@ from harness.main import Engine
 from harness.props import c01, c04
 
 PID = 'C07'
-LEVEL = 'translation_validation'
+LEVEL = 'proof'
 RULE = ('gin-machine/operative: configurations with bindings over scopes 0-3, macros, references, allow/deny lists and '
         'non-representable defaults / bindings, then 1-8 calls in scopes 0-3 with mixed caller-supplied / omitted '
         'arguments; observed: the raw operative record after the calls, operative_config_str(), then a SECOND fresh gin '
